@@ -87,6 +87,9 @@ pub(super) mod udp {
     use octo_squirrel::codec::shadowsocks::udp::Session;
     use octo_squirrel::codec::shadowsocks::udp::SessionCodec;
     use octo_squirrel::config::ServerConfig;
+    use std::time::Duration;
+
+    use lru_time_cache::LruCache;
     use octo_squirrel::manager::packet_window::PacketWindowFilter;
     use octo_squirrel::protocol::address::Address;
     use octo_squirrel::protocol::shadowsocks::Mode;
@@ -154,12 +157,19 @@ pub(super) mod udp {
         codec: SessionCodec<'a, N>,
         kind: CipherKind,
         session: Session<N>,
-        filter: PacketWindowFilter,
+        /// one packet window per server session: a server that restarted, or that rebuilt an expired association, answers under
+        /// a new server session id and counts its packet ids from 1 again
+        filters: LruCache<u64, PacketWindowFilter>,
     }
+
+    /// How long the window of a server session is kept after its last packet - longer than the 30 s a packet's timestamp stays
+    /// acceptable, so a copy of a packet of a forgotten session is refused for its age.
+    const SERVER_SESSION_TTL: Duration = Duration::from_secs(60);
+    const SERVER_SESSIONS: usize = 16;
 
     impl<const N: usize> DatagramPacketCodec<'_, N> {
         pub fn new(codec: SessionCodec<N>, kind: CipherKind) -> DatagramPacketCodec<'_, N> {
-            DatagramPacketCodec { codec, kind, session: Session::from(Mode::Client), filter: PacketWindowFilter::default() }
+            DatagramPacketCodec { codec, kind, session: Session::from(Mode::Client), filters: LruCache::with_expiry_duration_and_capacity(SERVER_SESSION_TTL, SERVER_SESSIONS) }
         }
     }
 
@@ -196,7 +206,9 @@ pub(super) mod udp {
                 match self.codec.decode(src)? {
                     Some((content, addr, session)) => {
                         // only shadowsocks 2022 packets carry a packet id; a duplicate or stale one is dropped, the session goes on
-                        if self.kind.is_aead_2022() && !self.filter.validate_packet_id(session.packet_id, u64::MAX) {
+                        if self.kind.is_aead_2022()
+                            && !self.filters.entry(session.server_session_id).or_insert_with(PacketWindowFilter::default).validate_packet_id(session.packet_id, u64::MAX)
+                        {
                             debug!("[udp] drop packet, packet_id out of window; session={}", session);
                             return Ok(None);
                         }
